@@ -1454,98 +1454,117 @@ def cc4(repo: Repo) -> RuleResult:
                     res.bad(Finding("CC4", "lib/c/bitproto.h", 0, mname, e, "to_flag must be 0 for non-alias types", tag=f"{mname}:to_flag"))
                 if fld in ("processor", "json_formatter") and e != "NULL":
                     res.bad(Finding("CC4", "lib/c/bitproto.h", 0, mname, e, f"`{fld}` of a base type must be NULL", tag=f"{mname}:{fld}:null"))
-    # (b) generator templates against macro parameter lists
+    # (b) generator templates against macro parameter lists: the text every path of the
+    # formatter method returns, holes replaced by where their values come from
+    import re as _re
+
+    from .emit import class_emissions, formatter_returns
+    from .rules_f import ctor_calls_in_text
+
     m = get_model(repo)
-    SIZE_OK = {
-        "CFormatter.format_bp_int": ("self.format_sizeof(self.format_int_type(t))",),
-        "CFormatter.format_bp_uint": ("self.format_sizeof(self.format_uint_type(t))",),
-        "CFormatter.format_bp_message": ("self.format_sizeof(message_type)",),
-        "CFormatter.format_bp_enum": ("self.format_sizeof(enum_type)",),
-        "CFormatter.format_bp_alias": ("self.format_sizeof(alias_type)",),
+    SIZE_OF = {
+        "format_bp_int": ("self.format_int_type(t)", "self.format_type(t)"),
+        "format_bp_uint": ("self.format_uint_type(t)", "self.format_type(t)"),
+        "format_bp_message": ("self.format_message_type(t)", "self.format_type(t)"),
+        "format_bp_enum": ("self.format_enum_type(t)", "self.format_type(t)"),
+        "format_bp_alias": ("self.format_alias_type(t)", "self.format_type(t)"),
     }
-    LOCAL_ROLE = {
-        "size": "size", "processor": "processor", "formatter": "formatter", "to_flag": "to_flag", "bp_type": None, "field_descriptors": "field_descriptors",
-    }
+    KIND = {"format_bp_message": "message", "format_bp_array": "array", "format_bp_alias": "alias"}
     sites = [
-        ("CFormatter.format_bp_int", "BpInt"), ("CFormatter.format_bp_uint", "BpUint"), ("CFormatter.format_bp_message", "BpMessage"),
-        ("CFormatter.format_bp_enum", "BpEnum"), ("CFormatter.format_bp_array", "BpArray"), ("CFormatter.format_bp_alias", "BpAlias"),
-        ("CFormatter.format_bp_message_descriptor", "BpMessageDescriptor"), ("CFormatter.format_bp_array_descriptor", "BpArrayDescriptor"), ("CFormatter.format_bp_alias_descriptor", "BpAliasDescriptor"),
+        ("format_bp_int", "BpInt"), ("format_bp_uint", "BpUint"), ("format_bp_message", "BpMessage"),
+        ("format_bp_enum", "BpEnum"), ("format_bp_array", "BpArray"), ("format_bp_alias", "BpAlias"),
+        ("format_bp_message_descriptor", "BpMessageDescriptor"), ("format_bp_array_descriptor", "BpArrayDescriptor"), ("format_bp_alias_descriptor", "BpAliasDescriptor"),
     ]
-    for qual, mname in sites:
+
+    def c_role(meth: str, a: str) -> Tuple[str, Optional[str]]:
+        """(role, defect) of one argument text"""
+        r = role_of(a)
+        if r is not None:
+            return r, None
+        mm = _re.fullmatch(r"self\.format_sizeof\((.*)\)", a)
+        if mm:
+            if meth in SIZE_OF and mm.group(1) not in SIZE_OF[meth]:
+                return "size", f"the storage size is sizeof({mm.group(1)}), not sizeof(the C type of the same node)"
+            return "size", None
+        if " * " in a and meth == "format_bp_array":
+            parts = sorted(x.strip() for x in a.split(" * "))
+            want = sorted(["self.format_int_value(t.cap)", "self.format_sizeof(self.format_type(t.element_type))"])
+            if parts != want:
+                return "size", f"the array's storage size is `{a}`, not capacity * sizeof(element type)"
+            return "size", None
+        mm = _re.fullmatch(r"self\.format_bp_(\w+?)_processor_name\((t|t, d)\)", a)
+        if mm:
+            return "processor", None if KIND.get(meth) == mm.group(1) else f"the processor named is the one of a {mm.group(1)}"
+        mm = _re.fullmatch(r"self\.format_bp_(\w+?)_json_formatter_name\((t|t, d)\)", a)
+        if mm:
+            return "formatter", None if KIND.get(meth) == mm.group(1) else f"the JSON formatter named is the one of a {mm.group(1)}"
+        if a == "self.format_bp_type_flag(t.type)":
+            return "to_flag", None
+        if a == "self.format_bp_type(t.type, t)":
+            return "to", None
+        if a == "field_descriptors":
+            return "field_descriptors", None
+        return f"?{a}", None
+
+    for meth, mname in sites:
+        qual = f"CFormatter.{meth}"
         try:
             fi = m.func("impls/c/formatter.py", qual)
             params, sname, elems = mac.initializer(mname)
+            texts = formatter_returns(repo, "impls/c/formatter.py", "CFormatter", meth)
         except Inconclusive as e:
             res.unsure(f"CC4: {e}")
             continue
-        cs = [x for x in ctor_calls_in_templates(fi.node, "") if x[0] == mname]
-        if len(cs) != 1:
-            res.unsure(f"CC4: {qual}: template `{mname}(...)` not found")
+        cs = [x for t_ in texts for x in ctor_calls_in_text(t_, "") if x[0] == mname]
+        if len(cs) != 1 or len(texts) != 1:
+            res.unsure(f"CC4: {qual}: `{mname}(...)` is not the single text returned ({texts})")
             continue
         args = cs[0][1]
-        roles = []
-        for a in args:
-            mm = __import__("re").fullmatch(r"\{([A-Za-z_][A-Za-z0-9_]*)\}", a)
-            name = mm.group(1) if mm else a
-            v = local_value(fi.node, name)
-            if v is None and name == "field_descriptors":
-                roles.append("field_descriptors")
-                continue
-            r = role_of(v) if v else None
-            if r is None:
-                # size / processor / formatter / to_flag / bp_type: judged by the local's own name and source
-                if name == "size":
-                    r = "size"
-                elif name in ("processor",) and v and "processor_name" in v:
-                    r = "processor"
-                elif name in ("formatter",) and v and "json_formatter_name" in v:
-                    r = "formatter"
-                elif name == "to_flag" and v == "self.format_bp_type_flag(t.type)":
-                    r = "to_flag"
-                elif name == "bp_type" and v in ("self.format_bp_type(t.type, t)",):
-                    r = "to"
-                elif name == "bp_type" and v in ("self.format_bp_type(t.element_type)",):
-                    r = "element_type"
-                elif name == "cap" and v == "self.format_int_value(t.cap)":
-                    r = "capacity"
-                else:
-                    r = f"?{name}={v}"
-            roles.append(r)
+        judged = [c_role(meth, a) for a in args]
+        roles = [r for r, _ in judged]
         res.inst(part="template", site=qual, macro=mname, roles=roles, macro_params=params)
         if len(roles) != len(params):
             res.bad(Finding("CC4", fi.rel, fi.node.lineno, qual, f"{mname}({', '.join(args)})", f"the template passes {len(roles)} arguments, the macro takes {params}", tag=f"{qual}:arity"))
             continue
-        for k, (r, pn) in enumerate(zip(roles, params)):
+        for k, ((r, defect), pn) in enumerate(zip(judged, params)):
             if r.startswith("?"):
-                res.unsure(f"CC4: {qual}: argument {k} (`{args[k]}`) has no recognised provenance ({r})")
+                res.unsure(f"CC4: {qual}: argument {k} (`{args[k]}`) has no recognised provenance")
                 break
             if pn not in ROLE_EQUIV.get(r, {r}):
                 res.bad(Finding("CC4", fi.rel, fi.node.lineno, qual, f"{mname}({', '.join(args)})", f"argument {k + 1} carries `{r}` but macro parameter {k + 1} is `{pn}`", witness="generated descriptors carry swapped nbits / size / extensible / capacity", tag=f"{qual}:{k}"))
-        if qual in SIZE_OK:
-            v = local_value(fi.node, "size")
-            if v not in SIZE_OK[qual]:
-                res.bad(Finding("CC4", fi.rel, fi.node.lineno, qual, str(v), "the storage size is not sizeof(the C type of the same node)", witness="data pointers of array elements advance by a wrong stride", tag=f"{qual}:sizeof"))
-    # array size = cap * sizeof(element)
-    fi = m.func("impls/c/formatter.py", "CFormatter.format_bp_array")
-    t = pyast.unparse(fi.node)
-    res.inst(part="template", site=fi.qual, what="array size")
-    if "size = f'{capacity} * {size_element}'" not in t or "size_element = self.format_sizeof(element_type)" not in t or "element_type = self.format_type(t.element_type)" not in t:
-        res.bad(Finding("CC4", fi.rel, fi.node.lineno, fi.qual, "", "the array's storage size is not capacity * sizeof(element type)", tag="format_bp_array:size"))
-    # field descriptor item: (void *)&(m->field), bp_type of the same field, name of the same field
+            elif defect:
+                res.bad(Finding("CC4", fi.rel, fi.node.lineno, qual, args[k], defect, witness="data pointers of array elements advance by a wrong stride", tag=f"{qual}:sizeof"))
+    # field descriptor item: fds[index of the item] = BpMessageFieldDescriptor((void *)&(m->field), bp type of the same field, name of the same field)
     fi = m.func("impls/c/renderer_c.py", "BlockMessageProcessorFieldItem.render")
-    t = pyast.unparse(fi.node)
     res.inst(part="template", site=fi.qual, what="BpMessageFieldDescriptor(data, type, name)")
-    params, sname, elems = mac.initializer("BpMessageFieldDescriptor")
-    order = []
-    for needle, role in (("(void *)&(m->{self.message_field_name})", "data"), ("{bp_type}", "type"), ("{name}", "name")):
-        pos = t.find(needle)
-        order.append((pos, role))
-    if any(p < 0 for p, _ in order):
-        res.unsure("CC4: BlockMessageProcessorFieldItem.render: descriptor pieces not recognised")
-    else:
-        got = [r for _, r in sorted(order)]
-        if got != params:
-            res.bad(Finding("CC4", fi.rel, fi.node.lineno, fi.qual, str(got), f"the field descriptor is emitted as {got}, the macro takes {params}", tag="field-descriptor:order"))
-    if "bp_type = self.formatter.format_bp_type(self.d.type, self.d)" not in t or "name = self.formatter.format_str_value(self.d.name)" not in t or "index = self.formatter.format_int_value(self.i)" not in t or "fds[{index}] =" not in t:
-        res.bad(Finding("CC4", fi.rel, fi.node.lineno, fi.qual, "", "the k-th descriptor slot is not filled with type and name of the same field", witness="field names / types shifted by one in JSON and encoding", tag="field-descriptor:provenance"))
+    try:
+        params, sname, elems = mac.initializer("BpMessageFieldDescriptor")
+        em = class_emissions(repo, "impls/c/renderer_c.py", named="plain").get("BlockMessageProcessorFieldItem")
+        if not em:
+            raise Inconclusive("BlockMessageProcessorFieldItem.render: emission not computable")
+        text = " ".join(em)
+        cs = ctor_calls_in_text(text, "")
+        cs = [c_ for c_ in cs if c_[0] == "BpMessageFieldDescriptor"]
+        mm = _re.search(r"fds\[(.+?)\]\s*=\s*BpMessageFieldDescriptor\(", text)
+        if len(cs) != 1 or mm is None:
+            res.unsure(f"CC4: BlockMessageProcessorFieldItem.render: descriptor pieces not recognised in `{text}`")
+        else:
+            got = []
+            for a_ in cs[0][1]:
+                if _re.fullmatch(r"\(void \*\)&\(m->(self\.message_field_name|self\.formatter\.format_message_field_name\(self\.d\))\)", a_):
+                    got.append("data")
+                elif a_ == "self.formatter.format_bp_type(self.d.type, self.d)":
+                    got.append("type")
+                elif a_ == "self.formatter.format_str_value(self.d.name)":
+                    got.append("name")
+                else:
+                    got.append(f"?{a_}")
+            if any(g_.startswith("?") for g_ in got):
+                res.bad(Finding("CC4", fi.rel, fi.node.lineno, fi.qual, text, "the k-th descriptor slot is not filled with type and name of the same field", witness="field names / types shifted by one in JSON and encoding", tag="field-descriptor:provenance"))
+            elif got != params:
+                res.bad(Finding("CC4", fi.rel, fi.node.lineno, fi.qual, str(got), f"the field descriptor is emitted as {got}, the macro takes {params}", tag="field-descriptor:order"))
+            if mm.group(1) != "self.formatter.format_int_value(self.i)":
+                res.bad(Finding("CC4", fi.rel, fi.node.lineno, fi.qual, mm.group(1), "the descriptor is not stored at the item's own index", witness="field names / types shifted by one in JSON and encoding", tag="field-descriptor:provenance"))
+    except Inconclusive as e:
+        res.unsure(f"CC4: {e}")
     return res
